@@ -98,6 +98,9 @@ pub enum Instr {
     /// create a one-shot request future and drop it without ever polling it (the branch not
     /// taken): nothing is sent, nothing may stay behind
     Abandon { site: u32 },
+    /// abort a command through the handle an `Abortable` registered, from inside a task (a
+    /// "stopper"). Only used by the model-free conservation cases.
+    AbortCmd { handle: u32 },
 }
 
 impl Cmd {
@@ -256,6 +259,7 @@ impl Script {
                 Instr::Yield { .. } => out.push("i.Yield"),
                 Instr::Hold { .. } => out.push("i.Hold"),
                 Instr::Abandon { .. } => out.push("i.Abandon"),
+                Instr::AbortCmd { .. } => out.push("i.AbortCmd"),
                 Instr::JoinAllUnordered { .. } => out.push("i.JoinAllUnordered"),
                 Instr::SpawnPipe { script } => {
                     out.push("i.SpawnPipe");
